@@ -100,6 +100,18 @@ func c05r1(c *Ctx) {
 					}
 					stride = zero && step && len(ph.Edges) == 2
 				}
+				// the list consumed two at a time from its start: `for rest := Arguments; …; rest = rest[2:] { rest[0], rest[1] }`
+				if ph, ok := ia.X.(*ssa.Phi); ok {
+					if init, adv, ok := s.Env.sliceInduction(ph); ok && strings.HasSuffix(s.Env.Term(init), ".VMInput.Arguments") {
+						two := false
+						for _, k := range adv.c {
+							two = k == 2
+						}
+						if k0, isK := constInt(ia.Index); isK && k0 == 0 && two && len(adv.c) == 1 && adv.k == 0 {
+							stride = true
+						}
+					}
+				}
 			}
 		}
 		if pairOK && stride {
